@@ -673,7 +673,7 @@ func run(dir string, seed uint64, tier string) error {
 	r := gal.NewRand(seed)
 	scale := 1
 	if tier == "thorough" {
-		scale = 12
+		scale = 30
 	}
 
 	// ---- corpus: fixed defects, recorded findings, corners -----------------
